@@ -147,10 +147,18 @@ inline void powRound(Rational& r)
 /// returns the order of magnitude of the given rational
 inline int orderOfMagnitude(Rational& r)
 {
-   if(numerator(r) == 0 || (int) log10((double)numerator(r)) == log10((double)denominator(r)))
+   if(numerator(r) == 0)
       return 0;
-   else
-      return (int) log10((double)numerator(r)) - (int) log10((double)denominator(r));
+
+   // count decimal digits; going through double overflows to infinity (or gives NaN for negative numbers) and the
+   // conversion of that to int is undefined
+   Integer num = numerator(r);
+   Integer den = denominator(r);
+
+   if(num < 0)
+      num = -num;
+
+   return (int) num.str().size() - (int) den.str().size();
 }
 
 /* find substring, ignore case */
